@@ -88,9 +88,32 @@ PROPS['C15'] = {
     ],
 }
 
+CB = 'crypto::core::__verif_coreblocks::'
+H_ENC = K(CB, 'encrypt_block_contract', 'seal block of CryptoCore::encrypt: counter incremented before use and stored back; AEAD called once with the current key and exactly that counter; header = key id || counter bytes 5..12; other slots untouched', fns=['crypto::core::CryptoCore::encrypt (block: key/nonce/header/seal)'])
+H_DEC = K(CB, 'decrypt_block_contract', 'open block of CryptoCore::decrypt: key id outside 0..=3 rejected; slot = header byte 0; AEAD nonce = [opposite half,0,0,0,0,header 1..8]; only that slot may change', fns=['crypto::core::CryptoCore::decrypt (block: header read/nonce/decrypt_with_key)'])
+H_AGR = K(CB, 'seal_then_open_nonce_agreement', 'receiver reconstructs the sealing nonce iff it is in the other half and the counter fits 56 bits; reflected or overflowed datagrams meet a different nonce (cannot open)')
+PROPS['C02'] = {
+    'level': 'proof',
+    'kani': {
+        'files': {'src/crypto/core.rs': ['kani/coreblocks.rs.in', 'kani/core.rs']},
+        'harnesses': [H_ENC, H_DEC, H_AGR,
+            K(CORE, 'decrypt_with_key_contract', 'Ok <=> nonce >= min && AEAD ok (a datagram the AEAD rejects is never accepted and changes nothing)', fns=['crypto::core::CryptoCore::decrypt_with_key']),
+        ],
+    },
+    'native_search': {'kani::coreblocks::decrypt_block_contract': {'file': 'native/core_keyid.rs', 'attach': 'src/crypto/core.rs', 'test': 'altered_key_id_is_rejected'}},
+    'trusted': [
+        'AEAD axioms (ring): open succeeds only for the key, nonce and ciphertext||tag that seal produced; ring entry points are stubbed by oracles that record key/nonce',
+        'block contracts: the statements of encrypt/decrypt between the buffer split and the buffer re-adjustment are cut out verbatim; the surrounding MsgBuffer geometry is under contract in the Verus unit `buffer` (C08)',
+    ],
+    'not_decided': [
+        'confidentiality (cleartext never on the wire) is a property of the cipher',
+        'node level: that every emitted message goes through PeerCrypto::send_message (frame conditions are under C10)',
+        '"plain only if both enabled it" is C06',
+    ],
+}
+
 NOT_APPLICABLE = {
     'C01': 'needs Ed25519 unforgeability plus InitMsg::read_from / InitState::handle_init, which neither back end reaches (150-line TLV parser over Cursor/SmallVec; ring key objects); no contract within reach expresses it',
-    'C02': 'pending',
     'C04': 'pending',
     'C05': 'all-schedules agreement and recovery of two retransmitting state machines plus a liveness bound: a protocol-level joint invariant and liveness, outside per-function contracts',
     'C06': 'pending',
